@@ -902,7 +902,7 @@ func (c *FnCtx) applyContract(bc *blockCtx, spec *FuncSpec, cc *ssa.CallCommon, 
 			c.contractStale("call:"+label+":holds", spec.Pos, err, nil)
 			continue
 		}
-		if c.dry == 0 {
+		if c.dry == 0 && !c.isExclusive(bc.fr) {
 			c.oblige("lock", "call:"+label+":holds:"+h.String(), bc.reach, t, c.eng.posOf(pos), "callee requires lock "+h.String(), c.lockProps())
 		}
 	}
@@ -1034,6 +1034,17 @@ func (c *FnCtx) setLock(env *Env, st *State, e *Expr, val string, bc *blockCtx, 
 	c.heapStore(st, an, arrSort("Int"), l.Base, val)
 }
 
+// isExclusive: the access happens in code declared single-threaded (the function itself,
+// or the function it was inlined into).
+func (c *FnCtx) isExclusive(fr *Frame) bool {
+	for f := fr; f != nil; f = f.parent {
+		if f.spec != nil && f.spec.Exclusive {
+			return true
+		}
+	}
+	return false
+}
+
 // checkGuard: guarded_by discipline (C16) at a field access.
 func (c *FnCtx) checkGuard(bc *blockCtx, l *Loc, write bool, pos token.Pos) {
 	if l.Kind != LField || len(l.Path) == 0 || c.dry > 0 {
@@ -1047,7 +1058,7 @@ func (c *FnCtx) checkGuard(bc *blockCtx, l *Loc, write bool, pos token.Pos) {
 	if ts == nil || len(ts.Guarded) == 0 {
 		return
 	}
-	if c.spec != nil && c.spec.Exclusive {
+	if c.isExclusive(bc.fr) {
 		return
 	}
 	st, ok := l.Root.Underlying().(*types.Struct)
@@ -1055,6 +1066,13 @@ func (c *FnCtx) checkGuard(bc *blockCtx, l *Loc, write bool, pos token.Pos) {
 		return
 	}
 	fname := st.Field(l.Path[0]).Name()
+	if c.spec != nil {
+		for _, u := range c.spec.Unguarded {
+			if u == n.Obj().Name()+"."+fname {
+				return
+			}
+		}
+	}
 	for _, g := range ts.Guarded {
 		hit := false
 		for _, f := range g.Fields {
